@@ -19,7 +19,7 @@ impl Monitor for C01 {
         "exploration"
     }
     fn num_cases(&self, tier: Tier) -> u64 {
-        tier.pick(640, 24_000)
+        tier.pick(6_400, 300_000)
     }
     fn num_realsize_cases(&self, tier: Tier) -> u64 {
         tier.pick(0, 12)
